@@ -161,6 +161,7 @@ type World struct {
 	nextRid     int
 	cancels     map[int]context.CancelFunc
 	held        map[int][3]int // pod -> eni a4 a6 of its latest successful reply
+	last        map[int][3]int // pod -> what it held when it was last released
 	addUID      map[int]int    // pod -> uid generation under which its allocation was acknowledged (set by the service harness)
 	raceDispose map[int]int    // slot -> n of the Dispose that races with the next allocation attempt
 	inflight    map[int]int    // pod -> requests without a reply yet
@@ -670,7 +671,7 @@ var typeNames = []string{"secondary", "trunk", "erdma"}
 func NewWorld(cfg Config) *World {
 	eni.VerifSetRateLimit(rate.Inf)
 	w := &World{cfg: cfg, t0: time.Now(), cloud: map[int]*cloudENI{}, rids: map[*eni.LocalIPRequest]int{}, nextRid: 1000,
-		cancels: map[int]context.CancelFunc{}, held: map[int][3]int{}, addUID: map[int]int{}, raceDispose: map[int]int{}, inflight: map[int]int{}, FailRelease: map[int]bool{}}
+		cancels: map[int]context.CancelFunc{}, held: map[int][3]int{}, last: map[int][3]int{}, addUID: map[int]int{}, raceDispose: map[int]int{}, inflight: map[int]int{}, FailRelease: map[int]bool{}}
 	w.ctx, w.cancel = context.WithCancel(context.Background())
 	pc := &daemon.PoolConfig{BatchSize: cfg.Batch, MaxIPPerENI: cfg.Cap, EnableIPv4: cfg.On4, EnableIPv6: cfg.On6}
 	var nis []eni.NetworkInterface
@@ -1005,6 +1006,11 @@ func (w *World) Release(pod int) {
 	}
 	h, ok := w.held[pod]
 	delete(w.held, pod)
+	if ok {
+		w.last[pod] = h
+	} else if l, was := w.last[pod]; was {
+		h, ok = l, true // a repeated DEL, carrying what the pod once held (by now possibly another pod's)
+	}
 	w.mu.Unlock()
 	w.ev(RRelease, pod, h[0], h[1], h[2])
 	if ok {
